@@ -74,7 +74,7 @@ def exotic_variants(pid, scripts, rnd, share=0.12, cap=40):
 # (the second script's variables renamed apart), so that whatever the library shares between instances --
 # a class-level cache, a module-level buffer, a default argument object -- is used by both in turn
 _CREATORS = {'new': [1], 'newf': [1], 'copy': [1], 'deepcopy': [1], 'compose': [1], 'flag': [1], 'json': [1], 'snapf': [1],
-             'vr': [1], 'emb': [1], 'embm': [1], 'lattice': [1], 'complexes': [2], 'nextc': [1], 'iter': [1], 'gen': [2],
+             'vr': [1], 'emb': [1], 'embm': [1], 'embp': [1], 'lattice': [1], 'complexes': [2], 'nextc': [1], 'iter': [1], 'gen': [2],
              'sync': [1], 'nextof': [1]}
 import re as _re
 def _script_vars(sc):
@@ -94,7 +94,7 @@ def _script_vars(sc):
         if t[0] in ('addfrom', 'copyinto', 'composeinto', 'relabeldisj', 'snapinto') and len(t) > 2:
             V.update(t[1:3])
         if t[0] == 'compose' and len(t) > 3: V.update(t[2:4])
-        if t[0] in ('copy', 'deepcopy', 'flag', 'json', 'snapf', 'emb', 'embm', 'vr') and len(t) > 2: V.add(t[2])
+        if t[0] in ('copy', 'deepcopy', 'flag', 'json', 'snapf', 'emb', 'embm', 'embp', 'vr') and len(t) > 2: V.add(t[2])
     return V
 
 def _units(sc):
